@@ -81,3 +81,18 @@ Proof.
   repeat split; try reflexivity; try (vm_compute; congruence).
   eexists. split; [reflexivity|]. split; reflexivity.
 Qed.
+
+(* the sharp guard (solve_unique_ends): the inner periods 1 and 2 share a label, the two end labels are unambiguous —
+   solve(start=label of 0, end=label of 3) and solve() both visit 0..3 on every span type *)
+Definition exS_dup_inner : list Z := [0; 1; 1; 3].
+Example exS_unique_ends :
+  count_of 0 exS_dup_inner = 1%nat /\ count_of 3 exS_dup_inner = 1%nat /\ (2 <= count_of 1 exS_dup_inner)%nat /\
+  (forall kind, In kind [0%nat; 1%nat; 3%nat] ->
+     snd (f_solve exA_scripts exA_desc (exA_opts ERaise) kind exS_dup_inner [] (Some 0) (Some 3) exA_state)
+     = Ret (mkRes 4%nat [(0, 0, true); (1, 1, true); (1, 2, true); (3, 3, true)]) /\
+     f_solve exA_scripts exA_desc (exA_opts ERaise) kind exS_dup_inner [] None None exA_state
+     = f_solve exA_scripts exA_desc (exA_opts ERaise) kind exS_dup_inner [] (Some 0) (Some 3) exA_state).
+Proof.
+  split; [reflexivity|]. split; [reflexivity|]. split; [vm_compute; reflexivity|].
+  intros kind [<-|[<-|[<-|[]]]]; split; vm_compute; reflexivity.
+Qed.
